@@ -336,4 +336,18 @@ example :
     s.core.sys = .restarting ∧ (abs s).rphase = 1 := by
   decide +kernel
 
+/-- Non-vacuity of `runid_fresh`: Start gives run id 0, a completed Restart gives run id 1. -/
+example :
+    (run (repaired safes3) (init (repaired safes3) [5, 7, 9]) [.user .start, tk]).core.runId = some 0 ∧
+    (run (repaired safes3) (init (repaired safes3) [5, 7, 9])
+      ([.user .start, tk] ++ [.user .restart, tk, tk, tk])).core.runId = some 1 := by
+  decide +kernel
+
+/-- Non-vacuity of `accepted_iff_valid`: while Paused and not holding, Hold is accepted and Pause is not. -/
+example :
+    let s := run (repaired safes3) (init (repaired safes3) [5, 7, 9]) [.user .start, tk, .user .pause, tk]
+    s.core.sys = .paused ∧ (step (repaired safes3) s (.user .hold)).2 = .accepted ∧
+      (step (repaired safes3) s (.user .pause)).2 = .rejected := by
+  decide +kernel
+
 end OPM.C06
